@@ -97,6 +97,10 @@ def visibleLeaves (t : Tree) : List Leaf :=
 def wfParamNames (t : Tree) : Bool :=
   ((visibleLeaves t).map (fun l => paramName l.info.name)).Nodup
 
+/-- field names of the visible leaves are pairwise distinct (weaker than `wfParamNames`: `userID` next to `UserID`
+    passes; the generator tells the two parameters apart with a `_` suffix) -/
+def wfFieldNames (t : Tree) : Bool := ((visibleLeaves t).map (fun l => l.info.name)).Nodup
+
 def skipWithDef (t : Tree) : Bool := (leavesTop t).any (fun l => l.top && l.info.skip && l.info.defv ≠ "")
 
 def WF (t : Tree) : Bool :=
@@ -105,5 +109,9 @@ def WF (t : Tree) : Bool :=
 def region (t : Tree) : String :=
   if !wfLevels t || !wfParamNames t || skipWithDef t then "Out"
   else "WF"
+
+/-- the constructor's own region: parameter-name collisions are inside (C02_value_at_path_general) -/
+def regionG (t : Tree) : String :=
+  if !wfLevels t || !wfFieldNames t || skipWithDef t then "Out" else "WF"
 
 end ShootVerif.Ctor
